@@ -272,14 +272,20 @@ func ExecuteParked(fns []func(), pick Picker, maxSteps int, keepLog bool, before
 		if tt != t {
 			panic(fmt.Sprintf("vsched: thread %d yielded while %d was running (unregistered goroutine calling shims?)", tt.ID, t.ID))
 		}
-		// fair-yield rule: a thread that just called Gosched is deprioritised
-		// until some other thread takes a step.
-		for _, o := range r.Threads {
-			if o != t {
-				o.yielded = false
+		// fair-yield rule: a thread that called Gosched (a spin loop) stays
+		// deprioritised until some other thread performs a store-type
+		// operation, i.e. until the condition it spins on can have changed.
+		switch op.Kind {
+		case KStore, KCAS, KAdd, KSwap, KLock, KUnlock, KBroadcast, KSignal, KCondWait, KTryLock:
+			for _, o := range r.Threads {
+				if o != t {
+					o.yielded = false
+				}
 			}
 		}
-		t.yielded = op.Kind == KGosched
+		if op.Kind == KGosched {
+			t.yielded = true
+		}
 		r.LastT = id
 		if OnStep != nil {
 			OnStep(t, op)
